@@ -606,7 +606,9 @@ pub fn truncation_allowance(cutoff: Option<f64>, n_copies: usize, shape: &Value,
             let k = items.len() as f64;
             let sig = items.iter().map(|i| i["sigma"].as_f64().unwrap()).fold(0., f64::max);
             let eps = items.iter().map(|i| i["epsilon"].as_f64().unwrap()).fold(0., f64::max);
-            0.5 * density * k * k * 4. * eps * sig.powi(6) * 2. * PI / (4. * r0.powi(4)) * 1.5
+            // (both terms of the 12-6 law: in a compressed or very flat cell the first images left
+            // out lie inside the repulsive core, where the r^-12 term is the larger one)
+            0.5 * density * k * k * 4. * eps * 2. * PI * (sig.powi(6) / (4. * r0.powi(4)) + sig.powi(12) / (10. * r0.powi(10))) * 1.5
         }
     }
 }
